@@ -118,13 +118,17 @@ def write_evidence(pid, args, seed, facts, prog, insts, stats, broken, known_hit
             "rules": stats,
             "not_decided": meta.get("not_decided", []),
             "bodies_analysed": bodies,
+            "normal_form": {"helper_call_sites_spliced": len(getattr(facts, "norm_log", [])),
+                            "helpers_removed_as_units": sorted(h.replace("crate::", "") for h in getattr(facts, "norm_removed", {}))[:40],
+                            "reference_units": "rules/reference_units.txt", "doc": "DESIGN.md section 14"},
             "call_sites": call_sites,
             "yields": yields,
             "tree_hash": facts.tree_hash,
             "crates": [list(c) for c in facts.crates],
             "checker_cmd": "./check %s%s" % (pid, " --tier thorough" if args.tier == "thorough" else ""),
             "trusted_base": ["rustc nightly mir_built + Instance::try_resolve", "verif/driver (fact extraction)",
-                             "verif/rules/libmodel.py (library semantics from documentation)", "verif/rules/anchors.py"],
+                             "verif/rules/libmodel.py (library semantics from documentation)", "verif/rules/anchors.py",
+                             "verif/rules/norm.py (splicing of helper bodies preserves the paths of the program)"],
             "exhaustive": True,
             "broken": broken,
         },
